@@ -34,9 +34,10 @@ def judge(ck, shape, run, stats):
             key = "Run did not return within %d ms of cancel: %s blocked=%s" % (KILL_MS + MARGIN_MS, ident, json.dumps(b, sort_keys=True))
         ck.violation(key, rec); return
     if run["err_nil"]:
-        # the spec replayed this very trace: if on every accepted path main never observed the cancellation
-        # (it sat in `wait`), this is the named deviation Dev_WaitSwallowsCancel
-        if run.get("spec_seen") == [False]:
+        # the spec replayed this very trace: if it has an accepted path on which main never observed the
+        # cancellation (it sat in `wait` until the job had ended), this is the named deviation
+        # Dev_WaitSwallowsCancel
+        if False in (run.get("spec_seen") or []):
             ck.violation("Dev_WaitSwallowsCancel", rec); return
         ck.violation("Run returned a nil error although cancelled while running: %s" % ident, rec); return
     stats["max_ms"] = max(stats["max_ms"], run["cancel_to_return_ms"])
